@@ -370,9 +370,57 @@ fn e3_long(res: &mut PartResult) {
         }
         res.executions += 1;
     }
-    res.states = 2;
-    res.distinct_outcomes = 2;
-    res.sample(json!({"history": "200 x record(h_one / alias, (i%8)*0.5), render after 67, 134, 200 samples, upkeep after 131"}));
+    // many series: 300 series of each kind in a handful of families (every map behind the exporter grows several
+    // times), rendered at doubling sizes: every series exactly once, with its own value
+    for cfg in [Config::Default, Config::GlobalBuckets, Config::GlobalLabels] {
+        let (rec, _) = build(cfg);
+        let h = rec.handle();
+        let mut next_check = 1usize;
+        let mut want: BTreeMap<(String, String), f64> = BTreeMap::new();
+        for i in 0..300usize {
+            res.transitions += 3;
+            let l = vec![Label::new("i", i.to_string())];
+            rec.register_counter(&Key::from_parts(format!("mc{}", i % 5), l.clone()), &META).increment(i as u64 + 1);
+            rec.register_gauge(&Key::from_parts(format!("mg{}", i % 3), l.clone()), &META).set(i as f64 + 0.5);
+            rec.register_histogram(&Key::from_parts(format!("mh{}", i % 4), l.clone()), &META).record(i as f64 + 0.25);
+            want.insert((format!("mc{}", i % 5), i.to_string()), i as f64 + 1.0);
+            want.insert((format!("mg{}", i % 3), i.to_string()), i as f64 + 0.5);
+            want.insert((format!("mh{}_sum", i % 4), i.to_string()), i as f64 + 0.25);
+            if i + 1 == next_check || i == 299 {
+                next_check *= 2;
+                let text = h.render();
+                let fams = match promtext::parse(&text) {
+                    Ok(f) => f,
+                    Err(e) => {
+                        res.violation("malformed-exposition", format!("{:?} with {} series per kind: {}", cfg, i + 1, e), json!({"long": true}));
+                        break;
+                    }
+                };
+                if !promtext::duplicate_series(&fams).is_empty() {
+                    res.violation("series-rendered-more-than-once", format!("{:?} with {} series per kind: {:?}", cfg, i + 1, promtext::duplicate_series(&fams).iter().take(3).collect::<Vec<_>>()), json!({"long": true}));
+                    break;
+                }
+                let mut got: BTreeMap<(String, String), f64> = BTreeMap::new();
+                for f in &fams {
+                    for sm in &f.samples {
+                        if sm.name == f.name && sm.label("quantile").is_none() || sm.name.ends_with("_sum") {
+                            got.insert((sm.name.clone(), sm.label("i").unwrap_or("").to_string()), sm.value_f64());
+                        }
+                    }
+                }
+                if got != want {
+                    let missing: Vec<_> = want.keys().filter(|k| !got.contains_key(*k)).take(3).collect();
+                    let wrong: Vec<_> = want.iter().filter(|(k, v)| got.get(*k).map(|g| g != *v).unwrap_or(false)).take(3).collect();
+                    res.violation("families-differ-from-registered-metrics", format!("{:?} with {} series per kind: {} series rendered, {} registered; missing e.g. {:?}; wrong value e.g. {:?}", cfg, i + 1, got.len(), want.len(), missing, wrong), json!({"long": true}));
+                    break;
+                }
+            }
+        }
+        res.executions += 1;
+    }
+    res.states = 5;
+    res.distinct_outcomes = 5;
+    res.sample(json!({"history": "200 x record(h_one / alias, (i%8)*0.5), render after 67, 134, 200 samples, upkeep after 131; 900 series rendered at doubling sizes"}));
 }
 
 // ------------------------------------------------------------------ E1
@@ -611,7 +659,7 @@ fn main() {
     driver::main(CheckDef {
         prop: "C07",
         level: "model_checking",
-        rule: "E3: for each of 6 builder configurations (default summaries, global buckets, per-metric override, global labels with one overridden by a key label, custom quantiles, unit suffix) every sequence of the stated depth over 22 operations (counter increment/absolute incl. an increment that takes the total past 2^64 (totals are modulo 2^64), gauge set/increment incl. NaN, -0.0, 1e300, histogram record incl. +inf and NaN samples, first/second description of a name with and without a unit, render, run_upkeep; keys incl. equal keys built differently) on a fresh real PrometheusRecorder, plus a final render; every render is done twice (same line set, quantile lines aside), parsed by the strict independent parser and compared with the reference (families, series label sets = global overridden by key, counter totals, gauge bit round trip, _count/_sum conservation, bucket counts, HELP and unit suffix of the first description); a 200-sample multi-block history; E1: all SC interleavings of two recorder threads updating one gauge and one counter series with a rendering thread (no update lost); all SC interleavings of record() threads with a drainer thread (render, run_upkeep, render), also with 63 samples recorded beforehand (block hand-over) and with a second draining thread (run_upkeep x2, what the periodic upkeep task is to a scrape), also into a bucketed series (true histogram: cumulative buckets consistent, +Inf bucket = _count in every render) (samples are distinct powers of two so every partial sum identifies the set of samples counted); distinct = distinct rendered line sets / outcomes",
+        rule: "E3: for each of 6 builder configurations (default summaries, global buckets, per-metric override, global labels with one overridden by a key label, custom quantiles, unit suffix) every sequence of the stated depth over 22 operations (counter increment/absolute incl. an increment that takes the total past 2^64 (totals are modulo 2^64), gauge set/increment incl. NaN, -0.0, 1e300, histogram record incl. +inf and NaN samples, first/second description of a name with and without a unit, render, run_upkeep; keys incl. equal keys built differently) on a fresh real PrometheusRecorder, plus a final render; every render is done twice (same line set, quantile lines aside), parsed by the strict independent parser and compared with the reference (families, series label sets = global overridden by key, counter totals, gauge bit round trip, _count/_sum conservation, bucket counts, HELP and unit suffix of the first description); a 200-sample multi-block history; 900 series (300 per kind, a handful of families) rendered at doubling sizes, every series once with its own value; E1: all SC interleavings of two recorder threads updating one gauge and one counter series with a rendering thread (no update lost); all SC interleavings of record() threads with a drainer thread (render, run_upkeep, render), also with 63 samples recorded beforehand (block hand-over) and with a second draining thread (run_upkeep x2, what the periodic upkeep task is to a scrape), also into a bucketed series (true histogram: cumulative buckets consistent, +Inf bucket = _count in every render) (samples are distinct powers of two so every partial sum identifies the set of samples counted); distinct = distinct rendered line sets / outcomes",
         assumptions: &["E1: sequential consistency, one registry shard", "dyadic sample values so that sums are exact in any order"],
         parts,
         run,
